@@ -219,6 +219,27 @@ def run_driver(binpath, plans, tag, extra_args=(), timeout=900, env=None, max_de
     return traces, deaths
 
 
+def run_driver_parallel(binpath, plans, tag, k=4, **kw):
+    """run_driver over k child processes (plans dealt round-robin); deaths and traces are merged."""
+    if k <= 1 or len(plans) < 2 * k:
+        return run_driver(binpath, plans, tag, **kw)
+    import concurrent.futures as cf
+    chunks = [plans[i::k] for i in range(k)]
+    traces, deaths, errs = {}, [], []
+    with cf.ThreadPoolExecutor(max_workers=k) as ex:
+        futs = [ex.submit(run_driver, binpath, ch, "%s-w%d" % (tag, i), **kw) for i, ch in enumerate(chunks) if ch]
+        for f in futs:
+            try:
+                t, d = f.result()
+                traces.update(t)
+                deaths.extend(d)
+            except Inconclusive as e:
+                errs.append(e)
+    if errs:
+        raise errs[0]
+    return traces, deaths
+
+
 # --------------------------------------------------------------------------- trace validation
 def validate(module, cfg, traces, tag, env=None, timeout=900, workers=1, diagnose_max=8):
     """Validate recorded traces against spec/<module>.tla (a trace acceptor printing "ACC <plan>").
@@ -232,7 +253,7 @@ def validate(module, cfg, traces, tag, env=None, timeout=900, workers=1, diagnos
     tf = os.path.join(OUT, "traces", "%s-%d.ndjson" % (tag, os.getpid()))
     with open(tf, "w") as f:
         for t in traces:
-            f.write(json.dumps({"plan": t["plan"], "events": t["events"]}) + "\n")
+            f.write(json.dumps({"plan": t["plan"], "events": t["events"], "params": t.get("params") or {}}) + "\n")
     e = {"TRACE_FILE": tf}
     if env:
         e.update(env)
@@ -264,7 +285,7 @@ def diagnose(module, cfg, trace, tag, env=None):
     """Longest accepted prefix of one rejected trace: the acceptor prints "AT <plan> <l>" on every step."""
     tf = os.path.join(OUT, "traces", "%s-diag-%d.ndjson" % (tag, os.getpid()))
     with open(tf, "w") as f:
-        f.write(json.dumps({"plan": trace["plan"], "events": trace["events"]}) + "\n")
+        f.write(json.dumps({"plan": trace["plan"], "events": trace["events"], "params": trace.get("params") or {}}) + "\n")
     e = {"TRACE_FILE": tf, "TRACE_DIAG": "1"}
     if env:
         e.update(env)
